@@ -9,6 +9,7 @@ import hashlib
 import logging
 import os
 import random
+import signal
 import sys
 from datetime import datetime
 
@@ -39,6 +40,16 @@ def _load():
 
 
 FAIL = ('FAIL',)
+HANG = ('HANG',)
+OP_WATCHDOG_S = 20   # one op takes well under a millisecond; get_buffer_sizes a few ms
+
+
+class _OpTimeout(BaseException):   # not an Exception: the code under test must not be able to swallow it
+    pass
+
+
+def _on_alarm(signum, frame):
+    raise _OpTimeout()
 
 
 def _norm_transition(t):
@@ -51,7 +62,19 @@ def _norm_transition(t):
 
 
 def apply_op(zs, op):
-    """Runs one op on a ZoneSpecifier; returns a normalised outcome (a value tuple, or FAIL)."""
+    """Runs one op under a watchdog; returns a normalised outcome (a value tuple, FAIL, or HANG)."""
+    old = signal.signal(signal.SIGALRM, _on_alarm)
+    signal.setitimer(signal.ITIMER_REAL, OP_WATCHDOG_S)
+    try:
+        return _apply_op(zs, op)
+    except _OpTimeout:
+        return HANG
+    finally:
+        signal.setitimer(signal.ITIMER_REAL, 0)
+        signal.signal(signal.SIGALRM, old)
+
+
+def _apply_op(zs, op):
     try:
         k = op[0]
         if k == 'info_s':
